@@ -144,6 +144,59 @@ theorem fwdWalk_exact (f : Forwarder) (s : Bytes) (pre : List (List Item)) (g : 
         · simp only [he, Bool.false_eq_true, ↓reduceIte, ht]
           exact ih _ hps
 
+/-! ### only addresses that parse are used -/
+
+theorem setAddr_some (parse : Bytes → Option SockAddr) (a b : Bytes) (sb : SockAddr)
+    (h : setAddr parse a = some (b, sb)) : b = a ∧ parse a = some sb := by
+  unfold setAddr at h
+  cases hp : parse a with
+  | none => simp [hp] at h
+  | some sa =>
+    simp only [hp, Option.some.injEq, Prod.mk.injEq] at h
+    exact ⟨h.1.symm, by rw [h.2]⟩
+
+theorem xffAddr_set (parse : Bytes → Option SockAddr) (f : Forwarder) (hdr a : Bytes) (sa : SockAddr)
+    (h : xffAddr parse f hdr = some (a, sa)) : parse a = some sa := by
+  unfold xffAddr at h
+  cases hl : lastNotIn f (extractForwardArray hdr) with
+  | none => simp [hl] at h
+  | some a0 =>
+    simp only [hl] at h
+    obtain ⟨rfl, hp⟩ := setAddr_some parse a0 a sa h
+    exact hp
+
+theorem forwardedAddr_set (bf : Bool) (parse : Bytes → Option SockAddr) (f : Forwarder) (hdr a : Bytes)
+    (sa : SockAddr) (h : forwardedAddr bf parse f hdr = .set a sa) : parse a = some sa := by
+  unfold forwardedAddr at h
+  cases ht : fwdTokens hdr with
+  | bad => simp [ht] at h
+  | ok items =>
+    simp only [ht] at h
+    by_cases h1 : slots items ≥ 253
+    · simp [h1] at h
+    · simp only [h1, ↓reduceIte] at h
+      by_cases h2 : items.isEmpty = true
+      · simp [h2] at h
+      · simp only [h2, Bool.false_eq_true, ↓reduceIte] at h
+        cases hw : (if bf = true then fwdWalkBeforeFix f hdr items else fwdWalk f hdr items) with
+        | bad => simp [hw] at h
+        | junk => simp [hw] at h
+        | addr o =>
+          cases o with
+          | none => simp [hw] at h
+          | some a0 =>
+            simp only [hw] at h
+            cases hs : setAddr parse a0 with
+            | none => simp [hs] at h
+            | some p =>
+              obtain ⟨b, sb⟩ := p
+              simp only [hs, FwdRes.set.injEq] at h
+              obtain ⟨rfl, rfl⟩ := h
+              exact (setAddr_some parse a0 b sb hs).2 ▸ (by
+                have := (setAddr_some parse a0 b sb hs).1
+                subst this
+                rfl)
+
 /-! ### trust of the TCP peer -/
 
 theorem remoteAddr_untrusted (bf : Bool) (parse : Bytes → Option SockAddr) (c : ExtConf) (peer : Bytes)
